@@ -190,34 +190,36 @@ template<> struct MA<std::string> {
 };
 
 struct Writer {
-    nix::DataSet *target; nix::DataType dt; nix::NDSize count, offset; const std::vector<std::string> *vals;
+    nix::DataSet *target; nix::DataType dt; nix::NDSize count, offset; const std::vector<std::string> *vals; bool direct;
     template<typename T> std::string run() {
         // the buffer handed to the library must hold what the request transfers
         size_t need = count.size() ? nelms(count) : nelms(target->dataExtent());
         if (vals->size() < need) throw ProtoError("write buffer shorter than the request");
-        if (MA<T>::usable && vals->size() == need && isWhole(*target, count, offset) && (wholeTransfers++ % 2 == 0)) {
+        if (!direct && MA<T>::usable && vals->size() == need && isWhole(*target, count, offset) && (wholeTransfers++ % 2 == 0)) {
             MA<T>::write(target, count, *vals);
             return "";
         }
         typename Buf<T>::type buf(vals->size());
         for (size_t i = 0; i < vals->size(); i++) buf[i] = Conv<T>::from((*vals)[i]);
-        target->setData(dt, buf.data(), count, offset);
+        if (direct) dynamic_cast<nix::DataArray &>(*target).setDataDirect(dt, buf.data(), count, offset);
+        else target->setData(dt, buf.data(), count, offset);
         return "";
     }
 };
 struct Reader {
-    const nix::DataSet *source; nix::DataType dt; nix::NDSize count, offset; size_t n;
+    const nix::DataSet *source; nix::DataType dt; nix::NDSize count, offset; size_t n; bool direct;
     template<typename T> std::string run() {
         size_t need = count.size() ? nelms(count) : nelms(source->dataExtent());
         if (n < need) throw ProtoError("read buffer shorter than the request");
-        if (MA<T>::usable && n == need && isWhole(*source, count, offset) && (wholeTransfers++ % 2 == 0)) {
+        if (!direct && MA<T>::usable && n == need && isWhole(*source, count, offset) && (wholeTransfers++ % 2 == 0)) {
             return listTok(MA<T>::read(source, count.size()));
         }
         typename Buf<T>::type buf(n);
         // the buffer a client hands in is not zeroed: fill it with a sentinel so that a read which leaves elements
         // untouched (instead of delivering zeros for never-written data) is visible
         fillSentinel(buf);
-        source->getData(dt, buf.data(), count, offset);
+        if (direct) dynamic_cast<const nix::DataArray &>(*source).getDataDirect(dt, buf.data(), count, offset);
+        else source->getData(dt, buf.data(), count, offset);
         std::vector<std::string> out;
         for (size_t i = 0; i < n; i++) out.push_back(Conv<T>::to((T) buf[i]));
         return listTok(out);
@@ -272,7 +274,7 @@ DRV_OP(da_wr) {
     if (a.size() != 5) throw ProtoError("da_wr arity");
     return guarded([&]() {
         std::vector<std::string> v = tokList(a[4]);
-        Writer w{&wrH(), dtOf(a[1]), nd(a[2]), nd(a[3]), &v};
+        Writer w{&wrH(), dtOf(a[1]), nd(a[2]), nd(a[3]), &v, false};
         return withType(w.dt, w);
     });
 }
@@ -289,8 +291,26 @@ DRV_OP(da_whole) {
 DRV_OP(da_rd) {
     if (a.size() != 5) throw ProtoError("da_rd arity");
     return guarded([&]() {
-        Reader r{&rdH(), dtOf(a[1]), nd(a[2]), nd(a[3]), (size_t) tokNat(a[4])};
+        Reader r{&rdH(), dtOf(a[1]), nd(a[2]), nd(a[3]), (size_t) tokNat(a[4]), false};
         return withType(r.dt, r);
+    });
+}
+// da_rdd / da_wrd: the same through getDataDirect / setDataDirect (no calibration)
+DRV_OP(da_rdd) {
+    if (a.size() != 5) throw ProtoError("da_rdd arity");
+    return guarded([&]() {
+        Reader r{&rdH(), dtOf(a[1]), nd(a[2]), nd(a[3]), (size_t) tokNat(a[4]), false};
+        r.direct = true;
+        return withType(r.dt, r);
+    });
+}
+DRV_OP(da_wrd) {
+    if (a.size() != 5) throw ProtoError("da_wrd arity");
+    return guarded([&]() {
+        std::vector<std::string> v = tokList(a[4]);
+        Writer w{&wrH(), dtOf(a[1]), nd(a[2]), nd(a[3]), &v, false};
+        w.direct = true;
+        return withType(w.dt, w);
     });
 }
 // da_ext <shape>
@@ -402,7 +422,7 @@ DRV_OP(dv_rd) {
     if (a.size() != 5) throw ProtoError("dv_rd arity");
     return guarded([&]() {
         if (!st.view) return std::string("no-view");
-        Reader r{st.view.get(), dtOf(a[1]), nd(a[2]), nd(a[3]), (size_t) tokNat(a[4])};
+        Reader r{st.view.get(), dtOf(a[1]), nd(a[2]), nd(a[3]), (size_t) tokNat(a[4]), false};
         return withType(r.dt, r);
     });
 }
@@ -411,7 +431,7 @@ DRV_OP(dv_wr) {
     return guarded([&]() {
         if (!st.view) return std::string("no-view");
         std::vector<std::string> v = tokList(a[4]);
-        Writer w{st.view.get(), dtOf(a[1]), nd(a[2]), nd(a[3]), &v};
+        Writer w{st.view.get(), dtOf(a[1]), nd(a[2]), nd(a[3]), &v, false};
         return withType(w.dt, w);
     });
 }
